@@ -249,7 +249,7 @@ Proof.
       by (apply eerase_update_eq; [exact Ha|exact IHrhe|reflexivity]).
     match goal with |- context [match ?t with Some _ => _ | None => _ end] => destruct t as [rg|]; [|exact Hbase] end.
     destruct (index_adjust acc' rg); [rewrite eerase_sc_set_deg|]; exact Hbase.
-  - destruct (iter_opt (map (denv_degree env) args)); [rewrite eerase_sc_set_deg|]; reflexivity.
+  - destruct (phi_adjust (de_ctl env) (iter_opt (map (denv_degree env) args))); [rewrite eerase_sc_set_deg|]; reflexivity.
 Qed.
 
 Lemma pd_exprs_pres env es : forall res, map eerase (snd (pd_exprs env res es)) = map eerase es.
@@ -301,36 +301,37 @@ Proof.
   rewrite Hs, IH. reflexivity.
 Qed.
 
-Lemma pd_blocks_pres : forall bs env res,
-  map serase (all_stmts (snd (fst (pd_blocks env res bs)))) = map serase (all_stmts bs).
+Lemma pd_blocks_pres idom : forall bs env res pre,
+  map serase (all_stmts (snd (fst (pd_blocks idom env res pre bs)))) = map serase (all_stmts bs).
 Proof.
-  induction bs as [|b tl IH]; intros env res; [reflexivity|]. cbn [pd_blocks]. destruct res; [reflexivity|].
-  pose proof (pd_stmts_pres (b_stmts b) env false) as Hs.
-  destruct (pd_stmts env false (b_stmts b)) as [[r1 ss'] env']. cbn [fst snd] in Hs.
-  specialize (IH env' r1). destruct (pd_blocks env' r1 tl) as [[r2 tl'] env'']. cbn [fst snd] in *.
-  unfold all_stmts in *. cbn [flat_map set_stmts b_stmts]. rewrite !map_app, Hs, IH. reflexivity.
+  induction bs as [|b tl IH]; intros env res pre; [reflexivity|]. cbn [pd_blocks]. destruct res; [reflexivity|].
+  pose proof (pd_stmts_pres (b_stmts b) (denv_set_ctl env (block_ctl (pre ++ b :: tl) idom b)) false) as Hs.
+  destruct (pd_stmts (denv_set_ctl env (block_ctl (pre ++ b :: tl) idom b)) false (b_stmts b)) as [[r1 ss'] env'] eqn:Es. cbn [fst snd] in Hs.
+  specialize (IH env' r1 (pre ++ [set_stmts b ss'])).
+  destruct (pd_blocks idom env' r1 (pre ++ [set_stmts b ss']) tl) as [[r2 tl'] env'']. cbn [fst snd] in *.
+  unfold all_stmts in *. cbn [flat_map]. rewrite !map_app. cbn [set_stmts b_stmts]. rewrite Hs, IH. reflexivity.
 Qed.
 
-Lemma degrees_passes_pres : forall k env bs,
-  map serase (all_stmts (fst (degrees_passes k env bs))) = map serase (all_stmts bs).
+Lemma degrees_passes_pres idom : forall k env bs,
+  map serase (all_stmts (fst (degrees_passes k idom env bs))) = map serase (all_stmts bs).
 Proof.
   induction k as [|k IH]; intros env bs; [reflexivity|]. cbn [degrees_passes].
-  pose proof (pd_blocks_pres bs env false) as Hb.
-  destruct (pd_blocks env false bs) as [[rerun bs'] env']. cbn [fst snd] in Hb.
-  destruct rerun; [rewrite IH; exact Hb|exact Hb].
+  pose proof (pd_blocks_pres idom bs env false []) as Hb.
+  destruct (pd_blocks idom env false [] bs) as [[rerun bs'] env']. cbn [fst snd] in Hb.
+  destruct rerun; [|cbn [fst]; exact Hb]. rewrite IH. exact Hb.
 Qed.
 
 (* ---------- the universal C20 theorem for the full propagation ---------- *)
 Require Import Proofs.CutProofs Proofs.CutInvariant.
 
-Theorem propagate_validated_at_every_budget kv kd p c c' :
+Theorem propagate_validated_at_every_budget kv kd p idom c c' :
   clean_cfg c = true -> ldefs_unique (all_stmts (c_blocks c)) = true ->
-  propagate kv kd p c = Ok c' -> vjust_cfg p c' = true.
+  propagate kv kd p idom c = Ok c' -> vjust_cfg p c' = true.
 Proof.
   intros Hclean Hu. unfold propagate.
   destruct (values_passes kv p [] (c_blocks c)) as [[bs1 env1]| | |] eqn:Ev; try discriminate. cbn [bind].
-  pose proof (degrees_passes_pres kd (denv_init (c_kind c) (c_params c)) bs1) as Hd.
-  destruct (degrees_passes kd (denv_init (c_kind c) (c_params c)) bs1) as [bs2 env2]. cbn [fst] in Hd.
+  pose proof (degrees_passes_pres idom kd (denv_init (c_kind c) (c_params c)) bs1) as Hd.
+  destruct (degrees_passes kd idom (denv_init (c_kind c) (c_params c)) bs1) as [bs2 env2]. cbn [fst] in Hd.
   intros [= <-]. unfold vjust_cfg. cbn [set_blocks c_blocks].
   rewrite (vjust_same_erasure p (all_stmts bs2) (all_stmts bs1) Hd).
   exact (mirror_validated_at_every_budget kv p c bs1 env1 Hclean Hu Ev).
